@@ -55,6 +55,7 @@ type PipeSpec struct {
 	Cap     int
 	Items   []Item
 	Prefill bool // the producer runs inline before the tree is built (needs Cap >= len(Items)); no producer thread
+	Wait    bool // the producer sends nothing (and does not close) before some consumer has received its first item
 }
 
 // Script of a consumer: N<0 drain to EOF then Close; otherwise receive N items (or until EOF) then Close.
@@ -231,6 +232,7 @@ type instance struct {
 	prodErr   string
 	consDone  []bool
 	recvAfter string
+	progress  int // items received by all consumers so far (dependent producers wait for the first one)
 }
 
 func (sp *Spec) build() (func(), func(x *vsched.Exec) (string, error)) {
@@ -324,6 +326,12 @@ func (sp *Spec) build() (func(), func(x *vsched.Exec) (string, error)) {
 			}
 			vsched.GoNamed(fmt.Sprintf("prod%d", pi), func() {
 				w := writers[pi]
+				if sp.Pipes[pi].Wait {
+					// a producer that answers the reader: nothing is sent, and the pipe stays open, until the reader has
+					// made progress (under the scheduler: blocked until then; in a native free run: no wait)
+					vsched.Block(vsched.OpGeneric, 900, func() bool { return in.progress > 0 })
+					vsched.Note(900)
+				}
 				for _, it := range sp.Pipes[pi].Items {
 					vsched.HLock() // closedN / prodErr are shared by producers and consumers (no-op under the scheduler, a mutex in the race pass)
 					vsched.Note(pi)
@@ -376,6 +384,10 @@ func (sp *Spec) build() (func(), func(x *vsched.Exec) (string, error)) {
 						continue
 					}
 					in.got[ci] = append(in.got[ci], v)
+					vsched.HLock()
+					in.progress++
+					vsched.Note(900)
+					vsched.HUnlock()
 				}
 				r.Close()
 				vsched.HLock()
@@ -535,6 +547,14 @@ func templates() []template {
 		{"copyOneMerged", 2, 2, func(ps []PipeSpec) ([]CopyNode, []*Expr) {
 			return []CopyNode{{P(0), 2}}, []*Expr{M(Cp(0, 0), P(1)), Cp(0, 1)}
 		}, false},
+		// n-way merges (the hand-unrolled select tables for 2..5 sources) with DEPENDENT producers: exactly one source
+		// has an item ready, the others send (one item each) only after the reader has received something. Every arm of
+		// every table must be polled, and the end of a source must remove that source and no other.
+		{"merge3dep", 3, 1, func(ps []PipeSpec) ([]CopyNode, []*Expr) { return nil, []*Expr{M(P(0), P(1), P(2))} }, false},
+		{"merge4dep", 4, 1, func(ps []PipeSpec) ([]CopyNode, []*Expr) { return nil, []*Expr{M(P(0), P(1), P(2), P(3))} }, false},
+		{"merge5dep", 5, 1, func(ps []PipeSpec) ([]CopyNode, []*Expr) {
+			return nil, []*Expr{M(P(0), P(1), P(2), P(3), P(4))}
+		}, false},
 		{"merge5table", 5, 1, func(ps []PipeSpec) ([]CopyNode, []*Expr) {
 			return nil, []*Expr{M(P(0), P(1), P(2), P(3), P(4))}
 		}, false},
@@ -576,6 +596,15 @@ func main() {
 		var pipeSets [][]PipeSpec
 		if t.pipes == 0 {
 			pipeSets = [][]PipeSpec{nil}
+		} else if strings.HasSuffix(t.name, "dep") {
+			for ready := 0; ready < t.pipes; ready++ {
+				ps := make([]PipeSpec, t.pipes)
+				for i := range ps {
+					ps[i] = PipeSpec{Cap: 1, Wait: true, Items: items(10*(i+1), "1")}
+				}
+				ps[ready] = PipeSpec{Cap: 1, Prefill: true, Items: items(10*(ready+1), "1")}
+				pipeSets = append(pipeSets, ps)
+			}
 		} else if t.name == "merge5table" {
 			// exactly five sources: the hand-unrolled 5-way select. All are pre-filled and closed (one or two carry
 			// an item), so the only nondeterminism is which ready arm the select takes: every order in which the
@@ -631,11 +660,22 @@ func main() {
 				}
 				var pd []string
 				for _, p := range ps {
-					pd = append(pd, fmt.Sprintf("cap%d%v", p.Cap, p.Items))
+					tag := ""
+					if p.Wait {
+						tag = "wait"
+					} else if p.Prefill && strings.HasSuffix(t.name, "dep") {
+						tag = "ready"
+					}
+					pd = append(pd, fmt.Sprintf("cap%d%v%s", p.Cap, p.Items, tag))
 				}
 				sp.Name = fmt.Sprintf("%s/%s/scripts%v", t.name, strings.Join(pd, ","), scr)
 				sc := harness.Scenario{Name: sp.Name, OneOrder: true, HBCache: true, Bounds: bounds, MaxExecs: 3_000_000}
-				if t.name == "merge5table" {
+				if strings.HasSuffix(t.name, "dep") {
+					sc.Bounds = []int{0} // every ready-arm choice of the selects and every order of the released producers is a free choice
+					if scr[0] != -1 {
+						continue // the reader drains
+					}
+				} else if t.name == "merge5table" {
 					sc.Bounds = []int{0}
 				} else if t.name == "merge6reflect" {
 					sc.Bounds = []int{0, 1}
